@@ -1,6 +1,6 @@
 (** Entry points of the C06 model (N-Triples reader). *)
 From Coq Require Import List Ascii String ZArith Bool.
-From Shexer Require Import Lib.PyStr Gen.Consts Model.Table Model.NtReader Spec.NtSyntax Spec.NtDom.
+From Shexer Require Import Lib.PyStr Gen.Consts Model.Table Model.NtReader Spec.NtSyntax Spec.NtDom Spec.NtDomCur.
 Import ListNotations.
 
 Definition exn_str (e : exn) : str :=
@@ -28,14 +28,14 @@ Definition line_result_row (r : line_result) : list str :=
 
 (** row = [allow_untyped_numbers; line] *)
 Definition c06_line_row (r : list str) : list str :=
-  line_result_row (process_line (fbool r 0) (fld r 1)).
+  line_result_row (process_line_cur (fbool r 0) (fld r 1)).
 
 Definition nat_str (n : nat) : str := dec_of_N (N.of_nat n).
 
 (** row = [allow; reader (raw|file); document] -> [status; errors; #triples; fields of each triple, "|"-separated] *)
 Definition c06_doc_row (r : list str) : list str :=
-  let d := if str_eqb (fld r 1) (Str "file") then read_file (fbool r 0) (fld r 2)
-           else read_raw_string (fbool r 0) (fld r 2) in
+  let d := if str_eqb (fld r 1) (Str "file") then read_file_cur (fbool r 0) (fld r 2)
+           else read_raw_string_cur (fbool r 0) (fld r 2) in
   let out st ts errs := st :: nat_str errs :: nat_str (List.length ts) ::
                         flat_map (fun x => triple_fields x ++ [Str "|"]) ts in
   match d with
@@ -103,8 +103,8 @@ Definition c06_spec_row (r : list str) : list str :=
   | None => [Str "undecodable"]
   | Some (t, l) =>
     let '(s, p, o) := kinded t in
-    [nt_line t l; bstr (valid_triple t && valid_layout l); bstr (C06_dom t l);
-     flat_map bstr (root_causes t l)] ++
+    [nt_line t l; bstr (valid_triple t && valid_layout l); bstr (C06_dom_cur t l);
+     flat_map bstr (root_causes_cur t l)] ++
     kterm_fields s ++ [p] ++ kterm_fields o
   end.
 
@@ -112,4 +112,5 @@ Definition entry_c06 (name : str) (t : table) : option table :=
   if str_eqb name (Str "c06_line") then Some (map c06_line_row t)
   else if str_eqb name (Str "c06_doc") then Some (map c06_doc_row t)
   else if str_eqb name (Str "c06_spec") then Some (map c06_spec_row t)
+  else if str_eqb name (Str "c06_info") then Some [[bstr nt_fixed_tok]]
   else None.
